@@ -246,6 +246,7 @@ const (
 	opRekeySecret
 	opRekeyName
 	opRekeyKnown
+	opMacShort
 	// stage B2: one octet of one message
 	opAlter
 	// stage C: the octet stream
@@ -261,7 +262,7 @@ func (o c15op) stage() int {
 	switch {
 	case o.k <= opEmpty:
 		return 0
-	case o.k <= opRekeyKnown:
+	case o.k <= opMacShort:
 		return 1
 	case o.k == opAlter:
 		return 2
@@ -297,6 +298,8 @@ func (o c15op) String() string {
 		return fmt.Sprintf("re-sign-with-unknown-key(msg %d)", o.i)
 	case opRekeyKnown:
 		return fmt.Sprintf("re-sign-with-another-configured-key(msg %d)", o.i)
+	case opMacShort:
+		return fmt.Sprintf("mac-shortened-to(msg %d, %d octets)", o.i, o.j)
 	case opAlter:
 		return fmt.Sprintf("alter(msg %d, octet %d, xor %#02x)", o.i, o.j>>8, o.j&0xff)
 	case opCut:
@@ -318,12 +321,14 @@ const (
 	wRekeySecret
 	wRekeyName
 	wRekeyKnown
+	wMacShort
 )
 
 type c15wenv struct {
 	src   int // index of the logical envelope (= position in the sender's MAC chain)
 	mode  int
 	alter [][2]int // offset, xor mask
+	macLen int // wMacShort: octets of the MAC that are kept
 }
 
 type c15script struct {
@@ -425,6 +430,9 @@ func (s *c15script) with(o c15op) *c15script {
 		c.wire[o.i].mode = wRekeyName
 	case opRekeyKnown:
 		c.wire[o.i].mode = wRekeyKnown
+	case opMacShort:
+		c.wire[o.i].mode = wMacShort
+		c.wire[o.i].macLen = o.j
 	case opAlter:
 		c.wire[o.i].alter = append(c.wire[o.i].alter, [2]int{o.j >> 8, o.j & 0xff})
 	case opCut:
@@ -474,6 +482,8 @@ func (s *c15script) String() string {
 			b.WriteString("(unknown key)")
 		case wRekeyKnown:
 			b.WriteString("(another configured key)")
+		case wMacShort:
+			fmt.Fprintf(&b, "(MAC cut to its first %d octets, MAC size and RDLENGTH adjusted)", w.macLen)
 		}
 		for _, a := range w.alter {
 			fmt.Fprintf(&b, "(octet %d ^= %#02x)", a[0], a[1])
@@ -562,6 +572,22 @@ func (s *c15script) stream(req *dns.Msg, reqMAC string) ([]byte, []c15msgLayout,
 			msg, err = m.Pack()
 		case w.mode == wSigned:
 			msg = append([]byte(nil), chain[w.src].wire...)
+		case w.mode == wMacShort:
+			// the correctly signed message with only the first macLen octets of its MAC (RFC 8945 §5.2.2.1: a MAC
+			// shorter than max(10, half the digest) MUST be refused)
+			full := chain[w.src].wire
+			var unsigned []byte
+			unsigned, err = s.message(req, w.src).Pack()
+			if err == nil {
+				tsigOff := len(unsigned)
+				rdlenOff := tsigOff + c15NameWireLen(c15Key) + 8
+				macOff := tsigOff + c15NameWireLen(c15Key) + 10 + c15NameWireLen(dns.HmacSHA256) + 10
+				msg = append([]byte(nil), full[:macOff]...)
+				msg = append(msg, full[macOff:macOff+w.macLen]...)
+				msg = append(msg, full[macOff+32:]...)
+				binary.BigEndian.PutUint16(msg[macOff-2:], uint16(w.macLen))
+				binary.BigEndian.PutUint16(msg[rdlenOff:], binary.BigEndian.Uint16(full[rdlenOff:])-uint16(32-w.macLen))
+			}
 		default: // signed at the right place of the chain, but not with the key the client trusts
 			m := s.message(req, w.src)
 			key, secret := c15Key, c15Secret2
